@@ -37,12 +37,19 @@ def gen_script(rng, tier):
 
 
 def exhaustive(tier, shard, shards):
-    """every serial fault position x kind x recovery tail of C08's enumeration, judged by C12's clauses"""
+    """every serial fault position x kind x recovery tail of C08's enumeration, judged by C12's clauses; and the
+    mid-write enumeration of the multiplexed hop (harness/props/c11.py _midwrite_cases)"""
     k = 0
     for ops in c08._serial_cases():
         k += 1
         if k % shards == shard:
             yield {'t': 'serial', 'ops': ops}
+    # the multiplexed hop with the write as a yield point: every short interleaving of {deadline of the frame
+    # being written, answer, a second request and its deadline, drain, yield} around one blocked write
+    for ops in c11._midwrite_cases(tier):
+        k += 1
+        if k % shards == shard:
+            yield {'max': None, 'flavour': 'thriftmux', 'ops': ops}
 
 
 def shrink(script):
@@ -68,5 +75,5 @@ def run_script(script):
 def nontrivial(case):
     t = set(case.get('tags', []))
     return bool(t & {'timed-out', 'released', 'reordered', 'conn-killed', 'unreachable', 'pre-open', 'discard-sent',
-                     'gate-dropped', 'gate-expired', 'queued-req'}) \
+                     'gate-dropped', 'gate-expired', 'queued-req', 'timeout-during-some-write'}) \
         or c11.nontrivial(case) or c08.nontrivial(case)
